@@ -1,7 +1,7 @@
 (* C11 -- property theorems (statements only; proofs in C11Proofs.v; models in C11Model.v; spec in C11Spec.v). *)
 From Coquelicot Require Import Coquelicot.
 From Coq Require Import Reals List.
-From C11 Require Import C11Model C11Spec C11Proofs.
+From C11 Require Import C11Model C11Spec C11Proofs C11Spline.
 Import ListNotations.
 Local Open Scope R_scope.
 
@@ -55,3 +55,130 @@ Theorem C11_spline_local_integral : forall xa ya da xb yb db, xa <> xb -> forall
   is_RInt (fun x => fst (fst (cubic_R xa ya da xb yb db x))) x0 x1 (local_int_R xa ya da xb yb db x0 x1).
 Proof. exact spline_local_integral_is_RInt. Qed.
 Print Assumptions C11_spline_local_integral.
+
+(* right of the table and at the last node: clamp, or the last chord prolonged *)
+Theorem C11_lin_right_of_table : forall e p0 l1 pb a, increasing (p0 :: l1 ++ [pb]) -> fst pb <= a ->
+  lin_R e (p0 :: l1 ++ [pb]) a = if e then Some (chord (last l1 p0) pb a, slope (last l1 p0) pb) else Some (snd pb, 0).
+Proof. exact lin_right. Qed.
+Print Assumptions C11_lin_right_of_table.
+
+(* ---- cubic spline, whole table.  solveTridiagonalLinearSystem (Thomas): when no pivot vanishes the result solves the
+   symmetric tridiagonal system (first row b d0 + c d1 = r, then lo d_{i-1} + b_i d_i + c_i d_{i+1} = r_i) *)
+Theorem C11_thomas_solves_the_system : forall rest b r c, piv b c rest ->
+  exists d0 tl, sweep_R b r c rest = d0 :: tl /\ b * d0 + c * hd 0 tl = r /\ rowsys c d0 rest tl.
+Proof. exact sweep_ok. Qed.
+Print Assumptions C11_thomas_solves_the_system.
+
+(* on a strictly increasing table no pivot of the system assembled by buildInterpolation vanishes (every eliminated pivot
+   stays above its row's upper-diagonal entry), so CubicSplineNullPivot cannot be raised in exact arithmetic *)
+Theorem C11_no_null_pivot : forall (rest : list pt) (ho uo x0 y0 b' : R), increasing ((x0, y0) :: rest) -> 0 <= ho -> (rest = [] -> 0 < ho) ->
+  match rows_R ho uo x0 y0 rest with
+  | r0 :: rs => b' >= fst (fst r0) - ho -> piv b' (snd (fst r0)) rs
+  | [] => False
+  end.
+Proof. exact rows_piv. Qed.
+Print Assumptions C11_no_null_pivot.
+
+(* setCollocationPoints on any strictly increasing table: abscissae and values are kept and the nodal derivatives make the
+   second derivative of the local cubics continuous at every inner node and zero at both ends (natural spline) *)
+Theorem C11_spline_is_C2_and_natural : forall tab : list pt, increasing tab ->
+  map fst (build_R tab) = tab /\ natural_c2 (build_R tab).
+Proof. exact build_natural. Qed.
+Print Assumptions C11_spline_is_C2_and_natural.
+
+(* evaluation: on (x_p, x_q] the local cubic of the piece [p, q]; extrapolation policy on both sides *)
+Theorem C11_spline_piece_selection : forall e p0 l1 q l2 x, (forall r, In r (p0 :: l1) -> X r < x) -> x <= X q ->
+  spl_R e (p0 :: l1 ++ q :: l2) x = Some (cub (last l1 p0) q x).
+Proof. exact spl_piece. Qed.
+Print Assumptions C11_spline_piece_selection.
+
+Theorem C11_spline_left_of_table : forall e p0 p1 rest x, x <= X p0 ->
+  spl_R e (p0 :: p1 :: rest) x = Some (if e then (Tan p0 x, D p0, 0) else (Y p0, 0, 0)).
+Proof. exact spl_left. Qed.
+Print Assumptions C11_spline_left_of_table.
+
+Theorem C11_spline_right_of_table : forall e p0 p1 rest x, (forall r, In r (p0 :: p1 :: rest) -> X r < x) ->
+  spl_R e (p0 :: p1 :: rest) x = Some (if e then (Tan (last (p1 :: rest) p0) x, D (last (p1 :: rest) p0), 0)
+                                        else (Y (last (p1 :: rest) p0), 0, 0)).
+Proof. exact spl_right. Qed.
+Print Assumptions C11_spline_right_of_table.
+
+(* node reproduction at every node, value and first derivative; the piece to the right of a node starts with the same value
+   and derivative (C1) *)
+Theorem C11_spline_node_reproduction : forall e p0 l1 q l2, (forall r, In r (p0 :: l1) -> X r < X q) ->
+  (exists s2, spl_R e (p0 :: l1 ++ q :: l2) (X q) = Some (Y q, D q, s2)) /\
+  spl_R true (p0 :: l1 ++ q :: l2) (X p0) = Some (Y p0, D p0, 0) /\ spl_R false (p0 :: l1 ++ q :: l2) (X p0) = Some (Y p0, 0, 0).
+Proof.
+  intros e p0 l1 q l2 H. split; [apply spl_other_node; exact H|].
+  destruct l1; apply spl_first_node.
+Qed.
+Print Assumptions C11_spline_node_reproduction.
+
+Theorem C11_spline_C1_at_nodes : forall q r, X q <> X r ->
+  fst (fst (cub q r (X q))) = Y q /\ snd (fst (cub q r (X q))) = D q.
+Proof. exact spl_right_piece_starts_at_node. Qed.
+Print Assumptions C11_spline_C1_at_nodes.
+
+(* ---- computeIntegral: difference of one function of the bound (any bounds, any order) ... *)
+Theorem C11_integral_is_a_difference : forall p0 p1 rest a b,
+  integ_R (p0 :: p1 :: rest) a b = Some (Fglob (p0 :: p1 :: rest) b - Fglob (p0 :: p1 :: rest) a).
+Proof. exact integ_F. Qed.
+Print Assumptions C11_integral_is_a_difference.
+
+Theorem C11_integral_additive : forall pts a b c, pts <> [] -> oplus (integ_R pts a b) (integ_R pts b c) = integ_R pts a c.
+Proof. exact integ_additive. Qed.
+Print Assumptions C11_integral_additive.
+
+Theorem C11_integral_antisymmetric : forall pts a b, pts <> [] -> oplus (integ_R pts a b) (integ_R pts b a) = Some 0.
+Proof. exact integ_antisym. Qed.
+Print Assumptions C11_integral_antisymmetric.
+
+Theorem C11_mean_value : forall pts a b,
+  mean_R pts a b = match integ_R pts a b with Some v => Some (v / (b - a)) | None => None end.
+Proof. exact mean_is_integral_over_length. Qed.
+Print Assumptions C11_mean_value.
+
+(* ... which is the Riemann integral of what is evaluated there when both bounds lie in one piece / left / right of the table *)
+Theorem C11_integral_within_a_piece : forall p0 l1 q l2 a b, (forall r, In r (p0 :: l1) -> X r < a) -> a <= b -> b <= X q ->
+  X (last l1 p0) <> X q ->
+  exists v, integ_R (p0 :: l1 ++ q :: l2) a b = Some v /\ is_RInt (Sloc (last l1 p0) q) a b v.
+Proof. exact integ_same_piece. Qed.
+Print Assumptions C11_integral_within_a_piece.
+
+Theorem C11_integral_left_of_table : forall p0 p1 rest a b, a <= b -> b <= X p0 ->
+  exists v, integ_R (p0 :: p1 :: rest) a b = Some v /\ is_RInt (Tan p0) a b v.
+Proof. exact integ_left_of_table. Qed.
+Print Assumptions C11_integral_left_of_table.
+
+Theorem C11_integral_right_of_table : forall p0 p1 rest a b, (forall r, In r (p0 :: p1 :: rest) -> X r < a) -> a <= b ->
+  exists v, integ_R (p0 :: p1 :: rest) a b = Some v /\ is_RInt (Tan (last (p1 :: rest) p0)) a b v.
+Proof. exact integ_right_of_table. Qed.
+Print Assumptions C11_integral_right_of_table.
+
+(* computeIntegral(a, b), bounds in any order and anywhere, is the Riemann integral over [a, b] of the function computed by
+   getValue (spline inside the table, end tangents outside), for every table of collocation points with strictly
+   increasing abscissae, in particular (second theorem) for the points built by setCollocationPoints *)
+Theorem C11_integral_is_the_integral_of_the_interpolant : forall p0 p1 rest a b, sorted3 (p0 :: p1 :: rest) ->
+  exists v, integ_R (p0 :: p1 :: rest) a b = Some v /\ is_RInt (Sfun (p0 :: p1 :: rest)) a b v.
+Proof. exact integ_is_RInt. Qed.
+Print Assumptions C11_integral_is_the_integral_of_the_interpolant.
+
+Theorem C11_integral_end_to_end : forall (t : list pt) a b, increasing t -> t <> [] ->
+  exists v, integ_R (build_R t) a b = Some v /\ is_RInt (Sfun (build_R t)) a b v.
+Proof. exact integ_build_is_RInt. Qed.
+Print Assumptions C11_integral_end_to_end.
+
+(* ---- the piece search as written in the C++ (bisection internals::lower_bound): on sorted abscissae it returns the number
+   of abscissae below x ... *)
+Theorem C11_lower_bound_bisection : forall xs x, sortedx xs ->
+  (lower_bound_R xs x <= length xs)%nat /\
+  (forall j, (j < lower_bound_R xs x)%nat -> nth j xs 0 < x) /\
+  (forall j, (lower_bound_R xs x <= j < length xs)%nat -> x <= nth j xs 0).
+Proof. exact lower_bound_spec. Qed.
+Print Assumptions C11_lower_bound_bisection.
+
+(* ... so that the evaluation written through that index (the executed model, spl_bs) is the evaluation by linear scan
+   (spl) of the theorems above *)
+Theorem C11_spline_eval_through_bisection : forall e pts x, sorted3 pts -> spl_bs_R e pts x = spl_R e pts x.
+Proof. exact spl_bs_eq. Qed.
+Print Assumptions C11_spline_eval_through_bisection.
